@@ -6,6 +6,12 @@ ALL = [f'C{i:02d}' for i in range(1, 21)]
 
 # id -> (engine, technique, level text, level note, design ref)
 CHECKS = {
+ 'C04': ('vt', 'bounded-exhaustive enumeration of timed call programs x batch-function scripts on the real batcher under a virtual-time event loop',
+         'Every program of up to 4 (thorough 6) calls over repeating keys, gaps straddling batch_timeout, configs, per-key batch-function behaviours (value / Exception / StopIteration / omitted / raise / duplicate / unknown key), result orders and durations is executed on the real AsyncBackgroundBatcher (class and function form, one and two instances); each caller outcome is matched by identity against what the harness batch function yielded for its key; a pending caller at loop quiescence is a hang.',
+         'CPython 3.12 asyncio; virtual clock; <= 2 deviating keys per script; subclass instances of StopIteration are outside the alphabet (CPython returns their .value).', '3/C04'),
+ 'C10': ('vt', 'bounded-exhaustive enumeration of arrival-time sequences (with max_batch_size mutation events) on the real batcher under a virtual-time event loop',
+         'All arrival sequences of up to 5 (thorough 7) calls on a gap grid straddling batch_timeout, with one max_batch_size mutation at any position, x size/concurrency/duration configs; the batch log of the harness batch function is checked for size limit, concurrency limit, FIFO, sharing-until-full and dispatch deadline (exact in virtual time, ties not judged).',
+         'virtual clock; distinct keys; ties between arrivals and timers abstain on timing clauses only.', '3/C10'),
  'C20': ('vt', 'bounded-exhaustive enumeration of timed programs on the real code under a virtual-time event loop',
          'All lists of 0..4 (thorough 5) awaitables x outcomes x every weak ordering of finishing times x `only` are run through the real gather_excs/raise_first_exc on a virtual loop and compared with a list-comprehension reference; exhaustive within these bounds.',
          'CPython 3.12 asyncio semantics; virtual clock instead of real time; bounds as stated.', '3/C20'),
